@@ -301,10 +301,10 @@ theorem cdfGauss_range (T : Fn) (herf : ∀ y, -1 ≤ T.erf y ∧ T.erf y ≤ 1)
 
 /-- **quantile_gauss_inverts**: `CDF_Gauss(Quantile_Gauss(p)) = p` given `erf(invErf q) = q` on the root branch -/
 theorem quantile_gauss_inverts (T : Fn) (p mu sigma q : Rat) (hs : sigma ≠ 0) (hs2 : T.sqrt 2 ≠ 0)
-    (hroot : ¬ rabs (2 * p - 1 - 1) < 1e-16) (herf : T.erf (T.invErf (2 * p - 1)) = 2 * p - 1)
+    (hroot : ¬ rabs (2 * p - 1 - 1) < 1e-16) (hroot' : ¬ rabs (2 * p - 1 + 1) < 1e-16) (herf : T.erf (T.invErf (2 * p - 1)) = 2 * p - 1)
     (hq : quantileGauss T p mu sigma = .ok q) : cdfGauss T q mu sigma = p := by
-  unfold quantileGauss invErf at hq
-  rw [if_neg hroot] at hq
+  unfold quantileGauss invErfSym at hq
+  rw [if_neg hroot, if_neg hroot'] at hq
   split_ifs at hq with h2
   · cases hq
   · cases hq
@@ -315,15 +315,17 @@ theorem quantile_gauss_inverts (T : Fn) (p mu sigma q : Rat) (hs : sigma ≠ 0) 
     rw [this, herf]
     ring
 
-theorem quantile_gauss_guard (T : Fn) (p mu sigma : Rat) (hp : p ≤ 0 ∨ 1 + 1e-16 ≤ p) : quantileGauss T p mu sigma = .error .diag := by
-  unfold quantileGauss invErf
+theorem quantile_gauss_guard (T : Fn) (p mu sigma : Rat) (hp : p ≤ -1e-16 ∨ 1 + 1e-16 ≤ p) : quantileGauss T p mu sigma = .error .diag := by
+  unfold quantileGauss invErfSym
+  have h1' : ¬ rabs (2 * p - 1 + 1) < 1e-16 := by
+    unfold rabs; rcases hp with h | h <;> split_ifs <;> norm_num at * <;> linarith
   have h1 : ¬ rabs (2 * p - 1 - 1) < 1e-16 := by
     unfold rabs; rcases hp with h | h <;> split_ifs <;> norm_num at * <;> linarith
   have h2 : rabs (2 * p - 1) ≥ 1 := by
     unfold rabs; rcases hp with h | h <;> split_ifs <;> norm_num at * <;> linarith
   by_cases hs : sigma < 0
   · rw [if_pos hs]
-  · rw [if_neg hs, if_neg h1, if_pos h2]; rfl
+  · rw [if_neg hs, if_neg h1, if_neg h1', if_pos h2]; rfl
 
 /-- `fix:` d65f15f: a negative standard deviation is rejected (zero is accepted: the quantile is `mu`) -/
 theorem quantile_gauss_sigma_guard (T : Fn) (p mu sigma : Rat) (hs : sigma < 0) : quantileGauss T p mu sigma = .error .diag := by
@@ -403,7 +405,7 @@ example : bins [1, 2] [3, 4] [] = .ok [(1, 3, 0), (2, 4, 0)] := by decide +kerne
 example : bins [1, 2] [3] [] = .error .diag := by decide +kernel
 example : cdfBinomial chooseR 5 (1 / 3) 5 = .ok 1 := by decide +kernel
 example : pmfBinomial chooseR 5 (1 / 3) 2 = .ok (80 / 243) := by decide +kernel
-example : (quantileGauss Ttriv (1 / 4) 0 1) = .ok 0 ∧ quantileGauss Ttriv 0 0 1 = .error .diag ∧ quantileGauss Ttriv 1 0 1 = .ok 10 := by
+example : (quantileGauss Ttriv (1 / 4) 0 1) = .ok 0 ∧ quantileGauss Ttriv 0 0 1 = .ok (-10) ∧ quantileGauss Ttriv 1 0 1 = .ok 10 ∧ quantileGauss Ttriv (-1) 0 1 = .error .diag := by
   decide +kernel
 example : cdfChiSq Ttriv 1 0 = 1 ∧ cdfChiSq Ttriv (-1) 3 = 0 ∧ pdfChiSq Ttriv 0 3 = 0 := by decide +kernel
 
